@@ -45,6 +45,17 @@ func cmdSelftest(args []string) int {
 			cases = append(cases, tc{f, prop, kind == "mutants"})
 		}
 	}
+	// independently produced property-breaking changes (seeded/<prop>-<k>/patch.diff)
+	seeded, _ := filepath.Glob(filepath.Join(verifDir(), "seeded", "*", "patch.diff"))
+	sort.Strings(seeded)
+	for _, f := range seeded {
+		name := filepath.Base(filepath.Dir(f))
+		prop := strings.SplitN(name, "-", 2)[0]
+		if filter != "" && !strings.Contains("seeded/"+name, filter) {
+			continue
+		}
+		cases = append(cases, tc{f, prop, true})
+	}
 	self, _ := os.Executable()
 	bad := 0
 	var mu sync.Mutex
@@ -93,12 +104,16 @@ func cmdSelftest(args []string) int {
 						break
 					}
 				}
-				fmt.Printf("ok   must-fail %-55s %s\n", filepath.Base(c.patch), first)
+				label := filepath.Base(c.patch)
+				if label == "patch.diff" {
+					label = "seeded/" + filepath.Base(filepath.Dir(c.patch))
+				}
+				fmt.Printf("ok   must-fail %-55s %s\n", label, first)
 			case !c.mustFail && code == 0 && !viol:
 				fmt.Printf("ok   must-pass %s\n", filepath.Base(c.patch))
 			default:
 				bad++
-				fmt.Printf("BAD  %s (mustFail=%v exit=%d)\n%s\n", filepath.Base(c.patch), c.mustFail, code, indent(truncate(string(b), 1500)))
+				fmt.Printf("BAD  %s (mustFail=%v exit=%d)\n%s\n", c.patch, c.mustFail, code, indent(truncate(string(b), 1500)))
 			}
 		}(c)
 	}
